@@ -144,8 +144,13 @@ def run_case(case):
             "files" if k - 1 < len(ops) and "/files/" in str(ops[k - 1][3][:1]) else "other"
         # did this run enter the cross-device copy+delete fallback (a rename answered EXDEV)?
         xdev = any(t[2] in ("rename", "replace") and t[4] == "E18" for t in r.trace)
+        # ... and did an injected fault fire AFTER that point, i.e. inside the copy + delete?
+        first_x = next((i for i, t in enumerate(r.trace) if t[2] in ("rename", "replace") and t[4] == "E18"),
+                       len(r.trace))
+        xdev_fault = any(str(t[4]).startswith("FAULT") for t in r.trace[first_x + 1:])
         tags = dict(op=opname.replace("pair:", ""), mode="pair" if opname.startswith("pair") else mode,
-                    errno=case["errno"], pathcls=pathcls, target=case["target"], xdev=xdev)
+                    errno=case["errno"], pathcls=pathcls, target=case["target"], xdev=xdev,
+                    xdev_fault=xdev_fault)
         what = "%s on op %d/%d (%s %s), %s" % (case["errno"], k, n, opname,
                                               ops[k - 1][3][:1] if k - 1 < len(ops) else "", tags["mode"])
         oc = judge(out, case, spec, files, before, after, r, tags, what, n)
